@@ -461,3 +461,37 @@ func newPtrEmbClaims() *PtrEmbClaims {
 		CanonicalProfile: PtrEmbName,
 	}}
 }
+
+// ---- an extension whose own optional claim is of a type that validates
+// when it is ENCODED but not when it is decoded (eat.Nonce) ----
+
+const NonceP2Name = "http://example.com/verif/extra-nonce-on-p2"
+
+type NonceP2Claims struct {
+	psatoken.P2Claims
+	Extra *eat.Nonce `cbor:"-75400,keyasint,omitempty" json:"extra-nonce,omitempty"`
+}
+
+func (o NonceP2Claims) MarshalCBOR() ([]byte, error) { return encoding.SerializeStructToCBOR(hem, &o) }
+func (o *NonceP2Claims) UnmarshalCBOR(data []byte) error {
+	return encoding.PopulateStructFromCBOR(hdm, data, o)
+}
+func (o NonceP2Claims) MarshalJSON() ([]byte, error) { return encoding.SerializeStructToJSON(&o) }
+func (o *NonceP2Claims) UnmarshalJSON(data []byte) error {
+	return encoding.PopulateStructFromJSON(data, o)
+}
+
+type nonceP2Profile struct{}
+
+func (nonceP2Profile) GetName() string { return NonceP2Name }
+func (nonceP2Profile) GetClaims() psatoken.IClaims {
+	p := eat.Profile{}
+	if err := p.Set(NonceP2Name); err != nil {
+		panic(err)
+	}
+	return &NonceP2Claims{P2Claims: psatoken.P2Claims{
+		Profile:          &p,
+		SwComponents:     &psatoken.SwComponents[*psatoken.SwComponent]{},
+		CanonicalProfile: NonceP2Name,
+	}}
+}
